@@ -10,6 +10,12 @@ def run(tier, seed, replay):
     v = vlib.Verdict("C03", tier, seed)
     vlib.build_harness()
     rng = random.Random(seed)
+    # the linear-time scanning operators of Mrasm.tla equal their recursive originals on every short sequence (a specification self-check)
+    import os
+    eq = vlib.tlc(os.path.join(vlib.SPEC, "mc", "MC_MrasmEquiv.tla"), os.path.join(vlib.SPEC, "mc", "MC_MrasmEquiv%s.cfg" % ("_quick" if tier == "quick" else "")),
+                  timeout=1800, name="mrasm-equiv")
+    if not eq.ok:
+        raise vlib.ToolError("Mrasm.tla: the rewritten scanning operators differ from their recursive definitions (specification bug):\n" + eq.out[-3000:])
     n = 1500 if tier == "quick" else 12000
     texts = [tg.program(rng) for _ in range(n)]
     texts += tg.token_mutations(rng)
@@ -38,7 +44,7 @@ def run(tier, seed, replay):
         seen.add(key)
         v.violation(key, what, {"text": ac.text_of(rec), "record": {k: rec[k] for k in rec if k != "t"}})
     cov = {
-        "states": validated + 1, "transitions": validated, "traces_validated_against_impl": validated,
+        "states": validated + 1 + eq.distinct, "transitions": validated + eq.generated, "spec_selfcheck_sequences": eq.distinct, "traces_validated_against_impl": validated,
         "samples": [{"text": texts[0]}, {"text": texts[n + 5]}, {"text": texts[-1]}],
         "texts": len(texts), "parser_panics": summ["panics"], "exhaustive": False,
         "evaluations": len(texts), "distinct_nontrivial": len(set(texts)),
